@@ -91,7 +91,7 @@ def main():
         "hooks": {
             "guard": "TFEL_VERIF",
             "enable": "checks C29, C30 and C52 compile the anchored sources of /repo with -DTFEL_VERIF (add-only annotation TFEL_VERIF_SHARED_ACCESS feeding the simulator's happens-before race check); every other seam is symbol interposition (pthread_*, sem_*), link-time --wrap of process syscalls, LD_PRELOAD on real binaries, template/functor parameters and /verif-owned .mfront behaviours",
-            "baseline_off_cmd": "ctest --test-dir /repo/_build -j8 --timeout 900",
+            "baseline_off_cmd": "bin/baseline-off",
             "source_commits": ["7681c8188"],
             "add_only": True,
         },
